@@ -246,7 +246,11 @@ fn decode_real(bytes: &[u8], cuts: &[usize]) -> Result<Decoded, String> {
 fn show(evs: &[Ev]) -> String {
     let s = format!("{:?}", evs);
     if s.len() > 600 {
-        format!("{}...", &s[..600])
+        let mut end = 600;
+        while !s.is_char_boundary(end) {
+            end -= 1;
+        }
+        format!("{}...", &s[..end])
     } else {
         s
     }
@@ -394,6 +398,46 @@ fn witness(family: &str, label: &str, bytes: &[u8], cuts: &[usize], expect: &[Ev
         "cuts": cuts,
         "expect": serde_json::to_value(expect).unwrap(),
         "pending": pending,
+    })
+}
+
+/// Long payloads (a paste or a kitty response message of `len` bytes): built from a short description so that
+/// witnesses stay small. `fill` 0 = ASCII letters, 1 = two-byte characters.
+fn long_case(what: &str, len: usize, fill: u64) -> (Vec<u8>, Vec<Ev>) {
+    let text: String = if fill == 0 {
+        (0..len).map(|i| (b'a' + (i % 26) as u8) as char).collect()
+    } else {
+        (0..len / 2).map(|i| char::from_u32(0xe0 + (i % 30) as u32).unwrap()).collect()
+    };
+    let (bytes, ev) = if what == "paste" { print_paste(&text) } else { print_kitty_image(7, Some(3), None, &format!("EINVAL:{text}")) };
+    (bytes, vec![ev])
+}
+
+/// cut positions for reads of `chunk` bytes (0 = one read)
+fn chunk_cuts(n: usize, chunk: usize) -> Vec<usize> {
+    if chunk == 0 {
+        vec![]
+    } else {
+        (1..).map(|k| k * chunk).take_while(|c| *c < n).collect()
+    }
+}
+
+const LONG_LENS: [usize; 14] = [255, 256, 4095, 4096, 65_524, 65_525, 65_536, 65_537, 66_000, 1_048_564, 1_048_565, 1_048_576, 1_048_577, 1_100_000];
+const LONG_CHUNKS: [usize; 4] = [0, 4096, 65_536, 1_000_003];
+
+fn eval_long(what: &str, len: usize, fill: u64, chunk: usize) -> Option<Outcome> {
+    let (bytes, expect) = long_case(what, len, fill);
+    let cuts = chunk_cuts(bytes.len(), chunk);
+    eval(&bytes, &cuts, &expect, 0).map(|mut o| {
+        if o.detail.len() > 400 {
+            let mut end = 400;
+            while !o.detail.is_char_boundary(end) {
+                end -= 1;
+            }
+            o.detail.truncate(end);
+            o.detail.push_str("...");
+        }
+        o
     })
 }
 
@@ -977,6 +1021,69 @@ pub fn run(ctx: &Ctx) -> Result<Report, String> {
         Some(one("paste", print_paste(&text)))
     });
 
+    // --- long payloads: one sequence of up to 1.1 MB, read whole and in reads of 4 KiB / 64 KiB / ~1 MB ------
+    {
+        let mut cases = vec![];
+        for what in ["paste", "kitty-image"] {
+            for len in LONG_LENS {
+                for fill in [0u64, 1] {
+                    for chunk in LONG_CHUNKS {
+                        cases.push((what, len, fill, chunk));
+                    }
+                }
+            }
+        }
+        let bad: Vec<_> = cases
+            .par_iter()
+            .filter_map(|(what, len, fill, chunk)| eval_long(what, *len, *fill, *chunk).map(|o| (*what, *len, *fill, *chunk, o)))
+            .collect();
+        for (what, len, fill, chunk, o) in bad {
+            st.viol.add(
+                format!("long-payload/{what}:{}", o.kind),
+                format!("[long-payload] {what} with a payload of {len} bytes ({}) read in chunks of {chunk} (0 = one read): {}", if fill == 0 { "ASCII" } else { "two-byte characters" }, o.detail),
+                json!({"family": "long-payload", "what": what, "len": len, "fill": fill, "chunk": chunk}),
+            );
+        }
+        st.families.lock().unwrap().insert(
+            "long-payload",
+            FamilyStat { cases: (cases.len() / LONG_CHUNKS.len()) as u64, decodes: cases.len() as u64, skipped: 0, max_cuts: 0, example: json!({"what": "paste", "len": 1_048_577, "chunk": 65_536}) },
+        );
+    }
+
+    // --- zero-padded parameters: ECMA-48 5.4.1, leading zeros of a numeric parameter are not significant ------
+    {
+        // not for sequences whose digits are selectors of a fixed table entry rather than values (function keys
+        // `CSI 15 ~` / `CSI 1 ; 5 A`, the paste brackets `CSI 200 ~`, the `8;` / `4;` of size reports): no
+        // terminal pads those and the library matches them as literals
+        let reps: Vec<Token> = tokens()
+            .into_iter()
+            .filter(|t| t.bytes.starts_with(b"\x1b[") && t.bytes.iter().any(|b| b.is_ascii_digit()) && !["keys", "paste", "size"].contains(&t.family))
+            .collect();
+        let widths = [2usize, 19, 20, 21, 40];
+        let mut cases = vec![];
+        for t in &reps {
+            for w in widths {
+                // pad every run of digits in the sequence to `w` digits
+                let mut bytes = vec![];
+                let mut i = 0;
+                while i < t.bytes.len() {
+                    if t.bytes[i].is_ascii_digit() {
+                        let j = (i..t.bytes.len()).find(|k| !t.bytes[*k].is_ascii_digit()).unwrap_or(t.bytes.len());
+                        let run = &t.bytes[i..j];
+                        bytes.extend(std::iter::repeat(b'0').take(w.saturating_sub(run.len())));
+                        bytes.extend_from_slice(run);
+                        i = j;
+                    } else {
+                        bytes.push(t.bytes[i]);
+                        i += 1;
+                    }
+                }
+                cases.push(Case { sub: t.family, bytes, expect: t.events.clone(), pending: t.prefix as usize });
+            }
+        }
+        st.family_vec("zero-padded", small.min(1), cases);
+    }
+
     // --- SGR and DECRPSS SGR reports ---------------------------------------------------------------------
     let lattice = sgr_lattice();
     st.family("sgr", large, lattice.len() as u64, |i| {
@@ -1135,6 +1242,17 @@ pub fn run(ctx: &Ctx) -> Result<Report, String> {
 }
 
 pub fn replay(w: &Value) -> Result<(bool, String), String> {
+    if w["family"] == json!("long-payload") {
+        let what = w["what"].as_str().ok_or("what")?;
+        let len = w["len"].as_u64().ok_or("len")? as usize;
+        let fill = w["fill"].as_u64().unwrap_or(0);
+        let chunk = w["chunk"].as_u64().unwrap_or(0) as usize;
+        let head = format!("{what} with a payload of {len} bytes read in chunks of {chunk} (0 = one read); intended: one event carrying exactly that payload");
+        return Ok(match eval_long(what, len, fill, chunk) {
+            Some(o) => (true, format!("{head}\nobserved: [{}] {}", o.kind, o.detail)),
+            None => (false, format!("{head}\nobserved: the decoder returned exactly the intended event")),
+        });
+    }
     let bytes = unhex(w["bytes"].as_str().ok_or("bytes")?);
     let cuts: Vec<usize> = w["cuts"].as_array().ok_or("cuts")?.iter().map(|v| v.as_u64().unwrap_or(0) as usize).collect();
     let expect: Vec<Ev> = serde_json::from_value(w["expect"].clone()).map_err(|e| format!("expect: {e}"))?;
